@@ -144,7 +144,9 @@ class RetInstruction(Instruction):
     def lift(self, il: LowLevelILFunction, addr: int) -> None:
         pop_val = il.pop(self.addr_size())
         if self.addr_size() == 2:
-            high = il.and_expr(3, il.reg(3, RegisterName("PC")), il.const(3, 0xFF0000))
+            # Page of the RET instruction itself (PC already points past it when the
+            # IL runs, which is the next page for a RET in the last byte of a page).
+            high = il.const(3, addr & 0xFF0000)
             pop_val = il.or_expr(3, pop_val, high)
         il.append(il.ret(pop_val))
 
